@@ -617,11 +617,17 @@ func (fr *Frame) execTypeAssert(x *ssa.TypeAssert, st *State) {
 		r.assume(st, implies(ok, eq(v, r.makeIface(T, r.unboxIface(T, v)))))
 	}
 	if x.CommaOk {
-		fr.vals[x] = Tuple{r.def(x.Name(), res), r.def(x.Name()+"ok", ok)}
+		rt := r.def(x.Name(), res)
+		// the payload is a well-formed value of its type (zero value otherwise)
+		r.knownFacts(st, rt, T)
+		fr.vals[x] = Tuple{rt, r.def(x.Name()+"ok", ok)}
 		return
 	}
 	fr.safety(st, "assert-type", ok, x.Pos(), "type assertion to "+shortTypeName(T)+" succeeds")
 	fr.set(x, res)
+	if t, isT := fr.vals[x].(Term); isT {
+		r.knownFacts(st, t, T)
+	}
 }
 
 // ---------------------------------------------------------------------------
@@ -742,6 +748,8 @@ func (fr *Frame) execNext(x *ssa.Next, st *State) {
 	has := func(kk Term) Term { return and(nonnil, r.mapHas(st, it.mt, it.m, kk)) }
 	// ok => k is an unvisited key of the map; !ok => every key has been visited
 	r.assume(st, implies(ok, and(has(k), not(sel(vis, k)))))
+	// a map that has a key is not empty
+	r.assume(st, implies(ok, app("Bool", ">=", r.mapLen(st, it.mt, it.m), intLit(1))))
 	r.assume(st, implies(not(ok), Term{fmt.Sprintf("(forall ((kq %s)) (! (=> %s %s) :pattern (%s)))", ks, has(Term{"kq", ks}).S, sel(vis, Term{"kq", ks}).S, sel(vis, Term{"kq", ks}).S), "Bool"}))
 	r.knownFacts(st, k, it.mt.Key())
 	v := r.def("v", r.mapVal(st, it.mt, it.m, k))
